@@ -104,7 +104,7 @@ func checkC02(w *World, r *Report) {
 		if !w.isLib(fn) {
 			continue
 		}
-		g := w.FG(fn)
+		g := w.FGI(fn)
 		for n, in := range g.ins {
 			cc := callOf(in)
 			if cc == nil {
@@ -156,7 +156,7 @@ func checkC02(w *World, r *Report) {
 		if !types.Identical(fn.Signature.Params(), schedM.Type().(*types.Signature).Params()) {
 			continue
 		}
-		g := w.FG(fn)
+		g := w.FGI(fn)
 		runs := make([]bool, len(g.ins))
 		for n, in := range g.ins {
 			if cc := callOf(in); cc != nil && len(fn.Params) == 2 && cc.Value == ssa.Value(fn.Params[1]) {
@@ -169,7 +169,7 @@ func checkC02(w *World, r *Report) {
 
 	// R4
 	if ir.worker != nil {
-		g := w.FG(ir.worker)
+		g := w.FGI(ir.worker)
 		inv := w.Nodes(g, evI, false)
 		found := false
 		for _, op := range ir.ops {
@@ -194,7 +194,7 @@ func checkC02(w *World, r *Report) {
 		evP := EvStoreField(ir.inbox, ir.procField)
 		n := 0
 		for _, fn := range w.Funcs {
-			g := w.FG(fn)
+			g := w.FGI(fn)
 			for _, x := range members(w.Nodes(g, Ev{Name: evP.Name, M: evP.M, Shallow: true}, false)) {
 				st := g.ins[x].(*ssa.Store)
 				if fa, ok := st.Addr.(*ssa.FieldAddr); ok {
@@ -233,8 +233,8 @@ func checkC02(w *World, r *Report) {
 			continue
 		}
 		uses := len(w.callsIn(fn, evRecv))
-		for _, b := range fn.Blocks {
-			for _, in := range b.Instrs {
+		for _, in := range w.insOf(fn) {
+			{
 				if mc, ok := in.(*ssa.MakeClosure); ok {
 					if f, ok := mc.Fn.(*ssa.Function); ok && f.Synthetic != "" && strings.HasSuffix(f.Name(), "Receive$bound") {
 						uses++
@@ -321,8 +321,8 @@ func checkC02(w *World, r *Report) {
 		if !w.isLib(fn) || fnPkgPath(fn) != modPath+"/actor" {
 			continue
 		}
-		for _, b := range fn.Blocks {
-			for _, in := range b.Instrs {
+		for _, in := range w.insOf(fn) {
+			{
 				if c := callOf(in); c != nil && c.StaticCallee() != nil {
 					o := origin(c.StaticCallee())
 					if (o.Name() == "PopN" || o.Name() == "Pop") && strings.Contains(o.String(), "ringbuffer") {
@@ -341,8 +341,8 @@ func checkC02(w *World, r *Report) {
 	// the scheduler field cannot be replaced after construction
 	var schedW []string
 	for _, fn := range w.Funcs {
-		for _, b := range fn.Blocks {
-			for _, in := range b.Instrs {
+		for _, in := range w.insOf(fn) {
+			{
 				if st, ok := in.(*ssa.Store); ok {
 					if fa, ok := st.Addr.(*ssa.FieldAddr); ok && isFieldOf(fa, ir.inbox, "scheduler") {
 						if _, fresh := fa.X.(*ssa.Alloc); !fresh {
@@ -376,7 +376,7 @@ func checkLoopStatus(w *World, r *Report, rule string) {
 	if roleProblems(r, rule, ir) {
 		return
 	}
-	g := w.FG(ir.loop)
+	g := w.FGI(ir.loop)
 	key := fname(ir.loop) + ":status-before-every-batch"
 	what := "the worker loop loads the status before each Processer.Invoke and exits when it is 'stopped'"
 	// edges on which the freshly loaded status is known to differ from 'stopped'
@@ -494,7 +494,7 @@ func checkC03(w *World, r *Report) {
 
 	// R1
 	{
-		g := w.FG(ir.send)
+		g := w.FGI(ir.send)
 		P := w.Nodes(g, evPush, true)
 		Smust := w.Nodes(g, evSched, true)
 		Smay := w.Nodes(g, evSched, false)
@@ -522,7 +522,7 @@ func checkC03(w *World, r *Report) {
 
 	// R2
 	if ir.worker != nil {
-		g := w.FG(ir.worker)
+		g := w.FGI(ir.worker)
 		S := w.Nodes(g, evSched, true)
 		var rel *atomicOp
 		for i := range ir.ops {
@@ -580,7 +580,7 @@ func checkC03(w *World, r *Report) {
 
 	// R3
 	{
-		g := w.FG(ir.start)
+		g := w.FGI(ir.start)
 		S := w.Nodes(g, evSched, true)
 		found := false
 		for _, op := range ir.ops {
@@ -604,7 +604,7 @@ func checkC03(w *World, r *Report) {
 	if push == nil {
 		r.Unknown("C03.R5", "RingBuffer.Push:len", "Push increments len", "-", "RingBuffer.Push not found")
 	} else {
-		g := w.FG(push)
+		g := w.FGI(push)
 		rb := w.Named("ringbuffer", "RingBuffer")
 		inc := make([]bool, len(g.ins))
 		for _, op := range w.atomicOpsOn(rb, "len") {
